@@ -8,8 +8,13 @@ from .. import detsched
 BUILTIN = ["ENTRY_SIGNAL", "EXIT_SIGNAL", "INIT_SIGNAL", "REFLECTION_SIGNAL", "EMPTY_SIGNAL",
            "SEARCH_FOR_SUPER_SIGNAL", "STOP_FABRIC_SIGNAL", "STOP_ACTIVE_OBJECT_SIGNAL",
            "SUBSCRIBE_META_SIGNAL", "PUBLISH_META_SIGNAL"]
+# names that spell a method or attribute of the registry object itself: legal signal names as long
+# as they are not used through attribute access
+METHODISH = ["keys", "items", "values", "update", "append", "get", "pop", "clear", "copy", "name_for_signal",
+             "is_inner_signal", "highest_inner_signal", "move_to_end", "setdefault"]
 ident = st.from_regex(r"[A-Za-z][A-Za-z0-9_]{0,8}", fullmatch=True)
-anyname = st.one_of(ident, st.text(min_size=0, max_size=8), st.sampled_from(BUILTIN))
+anyname = st.one_of(ident, ident, st.text(min_size=0, max_size=8), st.text(min_size=0, max_size=8),
+                    st.sampled_from(BUILTIN), st.sampled_from(BUILTIN), st.sampled_from(METHODISH))
 
 
 @st.composite
@@ -68,7 +73,7 @@ class C25(Prop):
           "is_inner_signal(name or number), and building and using a second private SignalSource object - numbers are handed over as fresh int objects equal to the "
           "registered one, and a third of the cases first grow the registry to 300 names so that "
           "numbers lie beyond the interpreter's shared small integers; names are identifiers, arbitrary text (including the "
-          "empty string) and the ten built-in names; model seeded from the live registry. "
+          "empty string), the ten built-in names and names that spell a method of the registry object (keys, items, append, ...; never used through attribute access); model seeded from the live registry. "
           "Concurrent: 2-3 threads x 1-4 operations (append / attribute access / Event(name) "
           "registrations over shared and private fresh names, and Event(number) / name_for_signal "
           "uses of existing signals) under the deterministic scheduler with pre-emption "
@@ -93,7 +98,7 @@ class C25(Prop):
     # fresh per EXECUTION (the registry is process-wide and never forgets), so that a case
     # re-run while shrinking or replaying starts from unregistered names again
     tag = "%dx%d" % (case["tag"], C25.executions)
-    return name if name in BUILTIN else "%s_%s" % (name, tag) if name.isidentifier() else \
+    return name if name in BUILTIN or name in METHODISH else "%s_%s" % (name, tag) if name.isidentifier() else \
         "%s|%s" % (name, tag)
 
   def check(self, case, stats):
